@@ -14,4 +14,8 @@ impl SendTrack {
 		}
 	}
 	pub(crate) fn kv_input(&self, i: usize) -> Frame { self.input[i] }
+	pub(crate) fn kv_push_effect(&mut self, e: Box<dyn Effect>) { self.effects.push(e); }
+	/// starts a 10 s volume tween (0 dB -> 0 dB): its elapsed time then measures how many frames' worth of time process() was given
+	pub(crate) fn kv_start_stopwatch(&mut self) { self.volume.set(crate::Value::Fixed(Decibels::IDENTITY), crate::Tween { start_time: crate::StartTime::Immediate, duration: std::time::Duration::from_secs(10), easing: crate::Easing::Linear }); }
+	pub(crate) fn kv_stopwatch(&self) -> Option<f64> { self.volume.kv_tween_time() }
 }
